@@ -676,6 +676,9 @@ class MarkdownNormalizer(Renderer):
 
     def render_line_break(self, element: inline.LineBreak) -> str:
         if element.soft:
+            # A soft break separates words like a space does: digits before it do not form
+            # a list marker with an escaped period after it.
+            self._current_inline_text += "\n"
             return "\n"
         # What follows a hard break always starts a line, so an escaped period after digits
         # there ("1\\.") must keep its escape, exactly as at the start of the paragraph.
